@@ -1394,6 +1394,29 @@ func (vc *VC) execReturn(st *State, s *ast.ReturnStmt) {
 	if dead(st) {
 		return
 	}
+	// "return#k" anchors (top frame only): the values being returned are result0, result1, ...;
+	// locals of the returning scope are still visible
+	if fr.top && len(vc.anchoredNodes[s]) > 0 {
+		var rs []Term
+		for _, o := range fr.results {
+			if vc.isBoxed(o) {
+				rs = append(rs, vc.readVar(st, o.(*types.Var)))
+			} else {
+				rs = append(rs, st.vars[o])
+			}
+		}
+		pre := st.clone()
+		vc.resultGoTypesOverride = nil
+		for _, o := range fr.results {
+			vc.resultGoTypesOverride = append(vc.resultGoTypesOverride, o.Type())
+		}
+		vc.nodeAnchors(st, s, "before", rs, pre)
+		vc.nodeAnchors(st, s, "after", rs, pre)
+		vc.resultGoTypesOverride = nil
+		if dead(st) {
+			return
+		}
+	}
 	vc.finishFrame(st)
 }
 
